@@ -13,6 +13,8 @@ def scenarios(rng, tier):
         d = dict(w=192, h=128, n=9, **{'f:enc_mode': 8}); d.update(kw); out.append(d)
     S(); S(w=128, h=96, content=0); S(w=200, h=136, content=1, **{'f:qp': 30}); S(w=132, h=100, content=5)
     S(**{'f:tile_columns': 1, 'f:tile_rows': 1}, w=256, h=256)
+    # uniform tile spacing that yields fewer tiles than 2^log2 (3 columns of a requested 4; 3 rows of a requested 4; 3 x 2)
+    S(**{'f:tile_columns': 2}, w=192, h=128, content=2); S(**{'f:tile_rows': 2}, w=128, h=192, content=6); S(**{'f:tile_columns': 2, 'f:tile_rows': 1}, w=320, h=128, content=8)
     S(content=5, **{'f:screen_content_mode': 1, 'f:intrabc_mode': 1, 'f:palette_level': 6})
     S(**{'f:superres_mode': 1, 'f:superres_denom': 11, 'f:superres_kf_denom': 13})
     S(**{'f:superres_mode': 2})
